@@ -11,6 +11,7 @@ from z3 import *
 from pyvc.core import *
 
 PROPS = ['C08']
+REPLAY = {'driver': 'formatters'}
 TRUSTED = [
     "pydantic: model_validate(TaskiqMessage, model_dump(m)) == m and model_validate_json(TaskiqMessage, model_dump_json(m)[.encode()]) == m for JSON-representable content",
     "json: loads(dumps(x, default=d).encode().decode()) == x for JSON-representable x; json.loads and model_validate_json accept str or UTF-8 bytes alike",
